@@ -65,6 +65,9 @@ def fixed_cases(tier):
         for f in ('json', 'yaml'):
             out.append({'hist': [{'call': 'merge', 'id': 'd0', 'data': d, 'parents': []}, {'call': 'output', 'format': f}, {'call': 'output', 'format': 'json'},
                                  {'call': 'merge', 'id': 'c1', 'data': {'zz': 1}, 'parents': ['d0']}, {'call': 'output', 'format': f}], 'labels': ['fixed']})
+    # keys that evaluate to the same string: whichever wins, repeated output must not change
+    K = {'tier': 'web', 'region': 'eu', 'm': {'$"{tier}-{region}"': 1, 'web-eu': 2, '$"{tier}-eu"': 3}, 'l': [{'$"{tier}"': 'a', 'web': 'b'}]}
+    out.append({'hist': [{'call': 'merge', 'id': 'd0', 'data': K, 'parents': []}] + [{'call': 'output', 'format': f} for f in ('json', 'yaml', 'json', 'json-pretty', 'json', 'yaml')], 'labels': ['fixed']})
     # cross-document targets evaluated in either order
     A = {'name': 'a', 'h': {'$replace': {'$match': {'name': 'b'}, '$path': 't'}}, 'ctx': {'v': 'from-a'}}
     B = {'name': 'b', 't': {'n': {'$merge': 'ctx', 'own': 1}}, 'ctx': {'v': 'from-b'}}
